@@ -20,6 +20,8 @@ def insertBy (kind : FrameKind) (o : Interp.ChildResult) : Interp.M Unit :=
 def kindOfAction : Interp.Action → FrameKind
   | .call i => .call i.retStart i.retEnd
   | .create _ => .create 0
+  -- never consulted: `frameAction` refuses `Action.eofCreate` before anything is delivered (legacy-only model)
+  | .eofCreate _ => .create 0
 
 /-- what the loop does next -/
 inductive Next (κ : Type)
@@ -69,6 +71,8 @@ def makeFrame {κ : Type} (C : CpOps κ) (cfg : Cfg) (w : World) (a : Interp.Act
   match a with
   | .call i => makeCallFrame C cfg w i mem
   | .create i => makeCreateFrame C cfg w i mem
+  -- EOF frames are not modelled here (legacy code never emits this action: EOFCREATE stops a legacy frame)
+  | .eofCreate _ => throw (.panic "unsupported: Action.eofCreate (EOF frames are not modelled)")
 
 /-- the running frame hands out an action -/
 def frameAction {κ : Type} (C : CpOps κ) (cfg : Cfg) (top : Frame κ) (rest : List (Frame κ)) (a : Interp.Action)
